@@ -66,7 +66,15 @@ type sReq struct {
 	auth     string // ok:<v> | fail
 	writeOk  bool
 	items    []sItem
+	// harness detail (not part of the model line): a rejected credential built so that Username+Password is the same
+	// string as that of the earlier, accepted request `collideK-1` of the same connection (0 = ordinary credential)
+	collideK   int
+	collideRes string
+	sid        int // set by the driver before encoding (keys the look-alike table)
 }
+
+// credTable: (username, password) -> "<request index>:<result>" for credentials that do not carry it in the user name
+var credTable sync.Map
 
 type sArr struct {
 	kind byte // R E X
@@ -313,8 +321,12 @@ func runSessions(runs []*sessionRun, pipelined bool, T time.Duration, r *rand.Ra
 			sid, _ := strconv.ParseInt(sc.SessionID, 16, 64)
 			run := connByID[int(sid)]
 			cred, _ := a.CredentialValue.(kmip.CredentialUsernamePassword)
-			// Username carries "<request index>:<result>"
-			parts := strings.SplitN(cred.Username, ":", 2)
+			// Username carries "<request index>:<result>", unless the pair is a registered look-alike
+			name := cred.Username
+			if v, ok := credTable.Load(fmt.Sprintf("%d\x00%s\x00%s", sid, cred.Username, cred.Password)); ok {
+				name = v.(string)
+			}
+			parts := strings.SplitN(name, ":", 2)
 			k := parts[0]
 			if len(parts) == 2 && strings.HasPrefix(parts[1], "ok") {
 				run.conn.L.Add("requestAuth:%s:ok", k)
@@ -432,9 +444,16 @@ func encodeReq(k int, a *sReq) []byte {
 		if strings.HasPrefix(a.auth, "ok:") {
 			res = "ok" + strings.TrimPrefix(a.auth, "ok:")
 		}
+		user, pass := fmt.Sprintf("%d:%s", k, res), "x"
+		if a.collideK != 0 {
+			accepted := fmt.Sprintf("%d:%s", a.collideK-1, a.collideRes)
+			cut := 1 + k%(len(accepted)-1) // a different split of the same string for every request of the connection
+			user, pass = accepted[:cut], accepted[cut:]+"x"
+			credTable.Store(fmt.Sprintf("%d\x00%s\x00%s", a.sid, user, pass), fmt.Sprintf("%d:%s", k, res))
+		}
 		req.Header.Authentication = kmip.Authentication{
 			CredentialType:  kmip.CREDENTIAL_TYPE_USERNAME_AND_PASSWORD,
-			CredentialValue: kmip.CredentialUsernamePassword{Username: fmt.Sprintf("%d:%s", k, res), Password: "x"},
+			CredentialValue: kmip.CredentialUsernamePassword{Username: user, Password: pass},
 		}
 	}
 	for _, it := range a.items {
@@ -476,6 +495,7 @@ func driveClient(run *sessionRun, pipelined bool, T time.Duration, r *rand.Rand)
 		}
 		switch a.kind {
 		case 'R':
+			a.req.sid = run.cfg.sid
 			if _, err := c.Write(encodeReq(k, a.req)); err != nil {
 				alive = false
 				continue
@@ -685,8 +705,12 @@ func genScript(r *rand.Rand, common sCfg, saConfigured bool, o scriptOpts) (sCfg
 			if r.Intn(2) == 0 {
 				q.corr = string('a'+rune(r.Intn(26))) + strconv.Itoa(r.Intn(1000))
 			}
-			if r.Intn(12) == 0 {
+			switch r.Intn(24) {
+			case 0, 1:
 				q.bc += int32(1 - 2*r.Intn(2))
+			case 2:
+				// a count no batch can have: negative, or far beyond the items present
+				q.bc = []int32{-1, -2147483648, 1 << 20}[r.Intn(3)]
 			}
 			q.async = r.Intn(20) == 0
 			if r.Intn(3) == 0 {
@@ -702,6 +726,14 @@ func genScript(r *rand.Rand, common sCfg, saConfigured bool, o scriptOpts) (sCfg
 				}
 				it.beh = genBeh(r, it.payload)
 				q.items = append(q.items, it)
+			}
+			if q.cred != 0 && !strings.HasPrefix(q.auth, "ok:") && r.Intn(2) == 0 {
+				for i := len(arrs) - 1; i >= 0; i-- {
+					if arrs[i].kind == 'R' && arrs[i].req.cred != 0 && strings.HasPrefix(arrs[i].req.auth, "ok:") {
+						q.collideK, q.collideRes = i+1, "ok"+strings.TrimPrefix(arrs[i].req.auth, "ok:")
+						break
+					}
+				}
 			}
 			arrs = append(arrs, sArr{kind: 'R', req: q})
 		case x < 88 || (last && x < 50):
